@@ -75,6 +75,11 @@ def explore(ctx, depth):
         M = len(starts)
         pairs = [(a, b) for a in range(1, M + 1) for b in range(a, M + 1)]
         bad = [(-1, None), (-1, 1), (1, M + 1), (None, M + 1), (2, 1), (M, M - 1) if M >= 2 else (3, 2), (0, M), (0, None), (None, M), (1, None), (M, None)]
+        # every combination of boundary values (added after seeded change C07_r5_1: an end of exactly 0 with a start >= 1 was not among the pairs);
+        # (None, -1) is left out: a negative end without a start is not in the property and indexes the measure list from its end
+        A_ = [None] + sorted({-1, 0, 1, 2, M, M + 1})
+        B_ = [None, -1, 0, 1, M - 1, M, M + 1]
+        bad += [(a, b) for a in A_ for b in B_ if (a, b) not in pairs and (a, b) not in bad and not (a is None and b in (None, -1))]
         case.pairs, case.bad, case.starts, case.M = pairs, bad, starts, M
         all_exps.append([{'cats': docrun.ALLC, 'enc': 'kern', 'from': a, 'to': b} for a, b in pairs + bad])
     mresp = docrun.model_exports(ctx, cases, all_exps)
